@@ -5,17 +5,19 @@ as a PARAMETER.
 
 Why: the real cache key is `f"{ops_key}_{list(columns)}"`, where `ops_key` contains `terms.keys()` and `columns`
 is an OrderedSet built from Python sets: the text of the key depends on set-iteration order (hash-seed
-dependent).  The shared model (`Sql/WithForm.lean`) uses the canonical key `cacheKey`; the real code may hit the
-cache less often (or, in principle, differently).  The soundness theorem of C04 is therefore proved for EVERY key
-function `key : Near → Option (List String) → String` that is faithful on the query at hand (Props/C04.lean);
-`cacheKey` is the instance of the shared model (`toWithFormG_cacheKey`, Proofs/WithForm.lean).
+dependent).  The shared model (`Sql/WithForm.lean`) uses the canonical key `cacheKey`.  The soundness theorem of C04
+is therefore proved for EVERY key function `key : Near → Option (List String) → String` that is faithful on the query
+at hand (Props/C04.lean); `cacheKey` is the instance of the shared model (`toWithFormG_cacheKey`, Proofs/WithFix.lean).
 
-The definition below is the shared one with `cacheKey` replaced by `key`, written by structural recursion on the
-tree: `to_with_form_stub` is `stubStep` applied to the result of `to_with_form` on the same node (on a table /
-CTE node both return the node, no step and the cache unchanged).
-
-Also here: the scoping rule of SQL `WITH` that the shared `semNear` does not model (a table reference whose name
-equals an earlier CTE name denotes the CTE): `semWithC` (finding D24).
+* `toWithFormG key` / `stubStep key` — the code as it is (after fix N28: `to_with_form_stub` consults the cache BEFORE it
+  converts the sub-query), written by structural recursion on the tree: `to_with_form_stub` is `stubStep` applied to the
+  result of `to_with_form` on the same node (used on a miss only; on a table / CTE node both return the node, no step
+  and the cache unchanged).  `toWithFormG cacheKey = toWithForm`.
+* `toWithFormOld key` / `stubStepOld key` — the stub BEFORE fix N28 (sub-query converted first, cache consulted
+  afterwards, the converted steps discarded on a hit): kept only for the necessity theorem
+  `C04_cte_elim_closed_necessary` ("the pre-fix code needed `closed`") and its companion `C04_cte_elim_old_sound_key`.
+* `semWithC`, `scopeEnv` — the scoping rule of SQL `WITH` that the shared `semNear` does not model (a table reference
+  whose name equals an earlier CTE name denotes the CTE): finding D24.
 
 No imports beyond model files.
 -/
@@ -23,6 +25,59 @@ namespace DAVerif.Sql
 open DAVerif
 
 abbrev KeyFn := Near → Option (List String) → String
+
+/-! ### the code as it is (fix N28: the cache is consulted before the sub-query is converted)
+
+```
+        if self.near_sql.is_table: return self, []
+        ops_key = f"{self.near_sql.ops_key}"
+        if self.columns is not None: ops_key = f"{ops_key}_{list(self.columns)}"
+        if cte_cache is not None:
+            try:    retrieved_cte = cte_cache[ops_key]; ...; return new_stub, []       # nothing below is visited
+            except KeyError: pass
+        in_with_form = self.near_sql.to_with_form(cte_cache=cte_cache)
+        ...
+            if stub.quoted_query_name not in {k for k, v in sequence}:
+                sequence.append((stub.quoted_query_name, NearSQLContainer(near_sql=stub, force_sql=…, columns=…)))
+            new_stub_cte = NearSQLCommonTableExpression(query_name=stub.query_name, …)
+            if (cte_cache is not None) and (ops_key is not None): cte_cache[ops_key] = new_stub_cte
+``` -/
+
+/-- `container.to_with_form_stub(cte_cache0)`; `r` = the result of `to_with_form` on the node (used on a miss only) -/
+def stubStep (key : KeyFn) (cache0 : Option Cache) (near : Near) (cols : Option (List String)) (force : Bool)
+    (r : Near × List WithStep × Option Cache) : Near × List WithStep × Option Cache :=
+  if near.isTable then r
+  else
+    match cache0.bind (fun c => lookupLast c (key near cols)) with
+    | some cteName => (.cte cteName, [], cache0)
+    | none =>
+      (.cte r.1.name,
+       if r.2.1.any (fun st => st.name == r.1.name) then r.2.1 else r.2.1 ++ [⟨r.1.name, r.1, cols, force⟩],
+       r.2.2.map (fun c => c ++ [(key near cols, r.1.name)]))
+
+/-- `near.to_with_form(cte_cache)` with the key function `key` -/
+def toWithFormG (key : KeyFn) (cache : Option Cache) : Near → Near × List WithStep × Option Cache
+  | .table n ts => (.table n ts, [], cache)
+  | .cte n => (.cte n, [], cache)
+  | .unary name terms agg sub subCols suffix mg deps k =>
+    if sub.isTable then (.unary name terms agg sub subCols suffix mg deps k, [], cache)
+    else
+      let r := stubStep key cache sub subCols false (toWithFormG key cache sub)
+      (.unary name terms agg r.1 subCols suffix false none k, r.2.1, r.2.2)
+  | .join name terms l lCols lName r rCols rName jt onA onB k =>
+    if l.isTable && r.isTable then (.join name terms l lCols lName r rCols rName jt onA onB k, [], cache)
+    else
+      let r1 := stubStep key cache l (some lCols) false (toWithFormG key cache l)
+      let r2 := stubStep key r1.2.2 r (some rCols) false (toWithFormG key r1.2.2 r)
+      (.join name terms r1.1 lCols lName r2.1 rCols rName jt onA onB k, appendUnseen r1.2.1 r2.2.1, r2.2.2)
+  | .union name terms l r cols k =>
+    if l.isTable && r.isTable then (.union name terms l r cols k, [], cache)
+    else
+      let r1 := stubStep key cache l (some cols) true (toWithFormG key cache l)
+      let r2 := stubStep key r1.2.2 r (some cols) true (toWithFormG key r1.2.2 r)
+      (.union name terms r1.1 r2.1 cols k, appendUnseen r1.2.1 r2.2.1, r2.2.2)
+
+/-! ### the stub before fix N28 (sub-query converted first, cache consulted afterwards) -/
 
 /-- `container.to_with_form_stub(cte_cache)` after `in_with_form = self.near_sql.to_with_form(cte_cache)` has
 returned `r = (stub, sequence, cache)`:
@@ -38,7 +93,7 @@ returned `r = (stub, sequence, cache)`:
             new_stub_cte = NearSQLCommonTableExpression(query_name=stub.query_name, …)
             if (cte_cache is not None) and (ops_key is not None): cte_cache[ops_key] = new_stub_cte
 ``` -/
-def stubStep (key : KeyFn) (near : Near) (cols : Option (List String)) (force : Bool)
+def stubStepOld (key : KeyFn) (near : Near) (cols : Option (List String)) (force : Bool)
     (r : Near × List WithStep × Option Cache) : Near × List WithStep × Option Cache :=
   if near.isTable then r
   else
@@ -49,73 +104,27 @@ def stubStep (key : KeyFn) (near : Near) (cols : Option (List String)) (force : 
        if r.2.1.any (fun st => st.name == r.1.name) then r.2.1 else r.2.1 ++ [⟨r.1.name, r.1, cols, force⟩],
        r.2.2.map (fun c => c ++ [(key near cols, r.1.name)]))
 
-/-- `near.to_with_form(cte_cache)` with the key function `key` -/
-def toWithFormG (key : KeyFn) (cache : Option Cache) : Near → Near × List WithStep × Option Cache
+/-- `near.to_with_form(cte_cache)` of the code before fix N28 -/
+def toWithFormOld (key : KeyFn) (cache : Option Cache) : Near → Near × List WithStep × Option Cache
   | .table n ts => (.table n ts, [], cache)
   | .cte n => (.cte n, [], cache)
   | .unary name terms agg sub subCols suffix mg deps k =>
     if sub.isTable then (.unary name terms agg sub subCols suffix mg deps k, [], cache)
     else
-      let r := stubStep key sub subCols false (toWithFormG key cache sub)
+      let r := stubStepOld key sub subCols false (toWithFormOld key cache sub)
       (.unary name terms agg r.1 subCols suffix false none k, r.2.1, r.2.2)
   | .join name terms l lCols lName r rCols rName jt onA onB k =>
     if l.isTable && r.isTable then (.join name terms l lCols lName r rCols rName jt onA onB k, [], cache)
     else
-      let r1 := stubStep key l (some lCols) false (toWithFormG key cache l)
-      let r2 := stubStep key r (some rCols) false (toWithFormG key r1.2.2 r)
+      let r1 := stubStepOld key l (some lCols) false (toWithFormOld key cache l)
+      let r2 := stubStepOld key r (some rCols) false (toWithFormOld key r1.2.2 r)
       (.join name terms r1.1 lCols lName r2.1 rCols rName jt onA onB k, appendUnseen r1.2.1 r2.2.1, r2.2.2)
   | .union name terms l r cols k =>
     if l.isTable && r.isTable then (.union name terms l r cols k, [], cache)
     else
-      let r1 := stubStep key l (some cols) true (toWithFormG key cache l)
-      let r2 := stubStep key r (some cols) true (toWithFormG key r1.2.2 r)
+      let r1 := stubStepOld key l (some cols) true (toWithFormOld key cache l)
+      let r2 := stubStepOld key r (some cols) true (toWithFormOld key r1.2.2 r)
       (.union name terms r1.1 r2.1 cols k, appendUnseen r1.2.1 r2.2.1, r2.2.2)
-
-/-! ### the repaired stub (fixes/c04-cte-elim-lookup-before-recursion.diff)
-
-`to_with_form_stub` with the cache consulted BEFORE the recursion into the sub-query: on a hit nothing below is
-visited, so no key of a discarded step can stay behind in the cache (finding N28). -/
-
-def stubStepFix (key : KeyFn) (cache0 : Option Cache) (near : Near) (cols : Option (List String)) (force : Bool)
-    (r : Near × List WithStep × Option Cache) : Near × List WithStep × Option Cache :=
-  if near.isTable then r
-  else
-    match cache0.bind (fun c => lookupLast c (key near cols)) with
-    | some cteName => (.cte cteName, [], cache0)
-    | none =>
-      (.cte r.1.name,
-       if r.2.1.any (fun st => st.name == r.1.name) then r.2.1 else r.2.1 ++ [⟨r.1.name, r.1, cols, force⟩],
-       r.2.2.map (fun c => c ++ [(key near cols, r.1.name)]))
-
-/-- `near.to_with_form(cte_cache)` of the repaired code; `r` of `stubStepFix` is only used on a miss (the code
-recurses only then) -/
-def toWithFormFix (key : KeyFn) (cache : Option Cache) : Near → Near × List WithStep × Option Cache
-  | .table n ts => (.table n ts, [], cache)
-  | .cte n => (.cte n, [], cache)
-  | .unary name terms agg sub subCols suffix mg deps k =>
-    if sub.isTable then (.unary name terms agg sub subCols suffix mg deps k, [], cache)
-    else
-      let r := stubStepFix key cache sub subCols false (toWithFormFix key cache sub)
-      (.unary name terms agg r.1 subCols suffix false none k, r.2.1, r.2.2)
-  | .join name terms l lCols lName r rCols rName jt onA onB k =>
-    if l.isTable && r.isTable then (.join name terms l lCols lName r rCols rName jt onA onB k, [], cache)
-    else
-      let r1 := stubStepFix key cache l (some lCols) false (toWithFormFix key cache l)
-      let r2 := stubStepFix key r1.2.2 r (some rCols) false (toWithFormFix key r1.2.2 r)
-      (.join name terms r1.1 lCols lName r2.1 rCols rName jt onA onB k, appendUnseen r1.2.1 r2.2.1, r2.2.2)
-  | .union name terms l r cols k =>
-    if l.isTable && r.isTable then (.union name terms l r cols k, [], cache)
-    else
-      let r1 := stubStepFix key cache l (some cols) true (toWithFormFix key cache l)
-      let r2 := stubStepFix key r1.2.2 r (some cols) true (toWithFormFix key r1.2.2 r)
-      (.union name terms r1.1 r2.1 cols k, appendUnseen r1.2.1 r2.2.1, r2.2.2)
-
-/-- `to_sql` of the repaired code for given options (as `semToSql`, with `toWithFormFix cacheKey`) -/
-def semToSqlFix (Θ : Interp) (ec : EngineCfg) (env : Env) (useWith cteElim : Bool) (q : Near) : Except Err Table :=
-  if useWith then
-    let r := toWithFormFix cacheKey (if cteElim then some [] else none) q
-    if r.2.1.isEmpty then semSql Θ ec env q else semWith Θ ec env r.2.1 r.1
-  else semSql Θ ec env q
 
 /-- the entries `WITH s₁ AS (…), …` evaluated in order from the context `ctes` -/
 def runSteps (Θ : Interp) (ec : EngineCfg) (env : Env) (ctes : List (String × Table)) (steps : List WithStep) :
